@@ -2,6 +2,7 @@ package dvsim
 
 import (
 	"fmt"
+	"strings"
 	"time"
 
 	"github.com/named-data/ndnd/dv/config"
@@ -61,7 +62,12 @@ type Sim struct {
 	// Universe is the set of application prefixes the harness may announce (C19)
 	Universe map[string]bool
 
-	TaskCap   int
+	TaskCap int
+	// task-delay deviation (see HoldAfter)
+	Held      []*vsched.Task
+	HeldDesc  string
+	holdSite  string
+	holdCut   bool
 	Problems  []string // harness-level anomalies that make the execution unusable (CHECK-ERROR material)
 	AdvSeen   []string // advertisement entries with Cost >= infinity seen on the wire or in Rib.Advert()
 	TasksRun  int
@@ -131,12 +137,46 @@ func (s *Sim) boot(i int) {
 
 // RunTasks runs the queued `go` statements in FIFO order to quiescence.
 func (s *Sim) RunTasks() {
-	n, empty := vsched.RunAll(s.TaskCap)
-	s.TasksRun += n
-	if !empty {
-		s.Problems = append(s.Problems, fmt.Sprintf("task queue not empty after %d tasks (livelock?)", n))
-		vsched.Reset()
+	n := 0
+	for vsched.Pending() > 0 {
+		if s.holdSite != "" && !s.holdCut {
+			if ts := vsched.Tasks(); strings.Contains(ts[0].Site, s.holdSite) {
+				s.holdCut = true
+			}
+		}
+		if s.holdCut {
+			// task-delay deviation: everything still queued in this operation is held back
+			s.Held = append(s.Held, vsched.TakeAll()...)
+			break
+		}
+		if n >= s.TaskCap {
+			s.Problems = append(s.Problems, fmt.Sprintf("task queue not empty after %d tasks (livelock?)", n))
+			vsched.Reset()
+			break
+		}
+		vsched.RunOne(0)
+		n++
 	}
+	s.TasksRun += n
+}
+
+// HoldBefore arms the task-delay deviation for the current operation: as soon as the next task to
+// run is one that was spawned by a function whose name contains site (e.g.
+// "advertDataHandler", which spawns ribUpdate), that task and everything queued behind it or spawned
+// later in this operation is held back instead of run. Held tasks stay out of the run queue,
+// whatever events follow, until Release. Whether the cut happens and what is held is a function of
+// (state before the operation, operation), which is how the canonical state describes it.
+// Requires vsched.RecordSites.
+func (s *Sim) HoldBefore(site, desc string) {
+	s.holdSite, s.holdCut = site, false
+	s.HeldDesc = desc + " from " + s.CanonRouting()
+}
+
+// Release puts the held tasks back at the end of the run queue and runs everything to quiescence.
+func (s *Sim) Release() {
+	vsched.Put(s.Held)
+	s.Held, s.HeldDesc = nil, ""
+	s.RunTasks()
 }
 
 func (s *Sim) Idx(name enc.Name) int { return s.IdxH(name.Hash()) }
@@ -387,6 +427,10 @@ func (s *Sim) removeParked(x *Expressed) {
 
 // endOp finishes an operation: ephemeral Interests vanish, management queues are drained.
 func (s *Sim) endOp() {
+	s.holdSite, s.holdCut = "", false
+	if len(s.Held) == 0 {
+		s.HeldDesc = "" // the operation ended before the cut: nothing was delayed
+	}
 	s.dropEphemeral()
 	s.Drain()
 	for i, n := range s.Nodes {
@@ -499,6 +543,17 @@ func (s *Sim) LinkUp(i, j int)   { s.Live[key(i, j)] = true }
 func (s *Sim) RouterDown(r int) {
 	s.Nodes[r].Up = false
 	s.Nodes[r].Eng.outbox = nil
+	// the process is gone: so are its goroutines
+	var keep []*vsched.Task
+	for _, t := range s.Held {
+		if t.Ctx != fmt.Sprintf("r%d", r) {
+			keep = append(keep, t)
+		}
+	}
+	s.Held = keep
+	if len(keep) == 0 {
+		s.HeldDesc = ""
+	}
 }
 
 // RouterUp restarts router r as a fresh process. The clock is advanced first so that the new
